@@ -59,6 +59,8 @@ where
     ) -> Result<(), GrevmError<DB::Error>> {
         let txid = self.scheduler_ctx.committed_idx().min(self.block_size.saturating_sub(1));
         // This flag only elects the single execution caller and never publishes scheduler data.
+        #[cfg(feature = "verif")]
+        crate::verif::point(crate::verif::Point::RunOnceBeforeCas, 0, 0);
         self.started.compare_exchange(false, true, Ordering::Relaxed, Ordering::Relaxed).map_err(
             |_| GrevmError {
                 txid,
@@ -69,6 +71,8 @@ where
             },
         )?;
 
+        #[cfg(feature = "verif")]
+        crate::verif::event(crate::verif::Event::RunOnce { won: true });
         let started = Instant::now();
         self.metrics.record_block_start(self.block_size);
         let result = execute(started);
@@ -129,7 +133,11 @@ where
     pub(super) fn abort(&self, abort_reason: AbortReason<DB::Error>) {
         // Preserve the first abort cause. Publish it before the release-store so acquire readers
         // that observe `abort` can also observe the reason.
+        #[cfg(feature = "verif")]
+        crate::verif::abort_event(&abort_reason, self.abort_reason.get().is_none());
         self.abort_reason.get_or_init(|| abort_reason);
+        #[cfg(feature = "verif")]
+        crate::verif::point(crate::verif::Point::AbortAfterReason, 0, 0);
         self.cancel();
     }
 
@@ -139,6 +147,11 @@ where
     /// [`AbortReason`]—remains the authoritative failure signal.
     pub(super) fn cancel(&self) {
         self.abort.store(true, Ordering::Release);
+        #[cfg(feature = "verif")]
+        {
+            crate::verif::event(crate::verif::Event::Cancel);
+            crate::verif::point(crate::verif::Point::CancelAfterStore, 0, 0);
+        }
         self.finality_wait.notify();
         self.commit_wait.notify();
     }
